@@ -68,6 +68,20 @@ FILES = {
     'x/static.txt': b'OUTSIDE: root + ".txt"',
     'a.txt': b'OUTSIDE: two levels up',
 }
+# size classes around thresholds a maintainer might pick (64 KiB, 128 KiB +- 1, 256 KiB, 1 MiB + 7): patterned content, so
+# that the files, the gzip transcript and the replies stay small as Coq terms (bpat descriptors, see compact())
+PAT = bytes((i * 7 + 3) % 256 for i in range(251))
+BIG_SIZES = [65536, 131071, 131072, 131073, 262144, 1048583]
+
+def patterned(n):
+    return (PAT * (n // len(PAT) + 1))[:n]
+
+FILES['x/static/one.txt'] = b'1'
+for _n in BIG_SIZES:
+    FILES['x/static/big_%d.bin' % _n] = patterned(_n)
+FILES['x/big_65536.bin'] = patterned(65536)[:-1] + b'!'      # a large file just outside, different content
+BIG_LIMIT = 4096            # byte strings longer than this are written as descriptors
+
 for rel, data in FILES.items():
     p = os.path.join(_BASE, rel)
     os.makedirs(os.path.dirname(p), exist_ok=True)
@@ -113,11 +127,33 @@ def hx(data):
     """byte string as a hexadecimal Coq string literal decoded by StaticCases.hx (fast to parse)"""
     return '(hx "%s")' % bytes(data).hex()
 
+def compact(data):
+    """Coq term for a byte string: hex literal when short, else  (hx head ++ bpat (hx PAT) n ++ hx tail)  when everything after
+    a short head (nothing, or an HTTP head up to the empty line) is the repeated pattern; falls back to the hex literal"""
+    data = bytes(data)
+    if len(data) <= BIG_LIMIT:
+        return hx(data)
+    heads = [0]
+    i = data.find(b'\r\n\r\n', 0, 2000)
+    if i >= 0:
+        heads.append(i + 4)
+    for hl in heads:
+        body = data[hl:]
+        for tail in (0, 1):
+            core = body[:len(body) - tail] if tail else body
+            if core == patterned(len(core)):
+                t = '(hx "%s" ++ bpat PATC %d ++ hx "%s")' % (data[:hl].hex(), len(core), body[len(core):].hex())
+                return t
+    return hx(data)
+
 def coq_names(names):
     return C.coq_list(hx(n.encode() if isinstance(n, str) else n) for n in names)
 
 def coq_tree(tab):
-    return C.coq_list(('mkdir %s' % coq_names(k)) if v is None else ('mkfile %s %s' % (coq_names(k), hx(v))) for k, v in tab)
+    return C.coq_list(('mkdir %s' % coq_names(k)) if v is None else ('mkfile %s %s' % (coq_names(k), compact(v))) for k, v in tab)
+
+def is_big_entry(kv):
+    return kv[1] is not None and len(kv[1]) > BIG_LIMIT
 
 def agent_value():
     from proxy.common.constants import PROXY_AGENT_HEADER_VALUE
@@ -133,8 +169,11 @@ def expected_404():
 ROOT_CONST = {v: 'D_%s' % k for k, v in ROOTS.items()}
 IMPORTS = ('From PM Require Import Lib.Bytes Lib.PyStr Net.Static Net.StaticSpec Net.StaticCases.\n'
            'From Coq Require Import ZArith.\nOpen Scope N_scope.\n'
-           'Definition T0 : tree := %s.\nDefinition AG : bytes := %s.\nDefinition R404 : bytes := %s.\n%s'
-           % (coq_tree(TREE), hx(agent_value()), hx(expected_404()),
+           'Definition PATC : bytes := %s.\n'
+           'Definition T0 : tree := %s.\nDefinition TBIG : tree := %s.\nDefinition T1 : tree := T0 ++ TBIG.\n'
+           'Definition AG : bytes := %s.\nDefinition R404 : bytes := %s.\n%s'
+           % (hx(PAT), coq_tree([kv for kv in TREE if not is_big_entry(kv)]), coq_tree([kv for kv in TREE if is_big_entry(kv)]),
+              hx(agent_value()), hx(expected_404()),
               '\n'.join('Definition %s : bytes := %s.' % (c, hx(r.encode())) for r, c in ROOT_CONST.items())))
 
 
@@ -143,7 +182,7 @@ def coq_dir(root):
 
 
 def coq_reply(reply):
-    return 'R404' if reply == expected_404() else hx(reply)
+    return 'R404' if reply == expected_404() else compact(reply)
 
 
 # ----------------------------------------------------------------- generation
@@ -269,6 +308,27 @@ def generate(rng, tier):
     for _ in range(80 if quick else 1500):
         p = rng.choice(['', '/']) + tok_path(rng, rng.choice([1, 2, 3, 4, 5, 7]), NAMES_IN + NAMES_OUT + BASE_NAMES, 0.5)
         cases.append(dict(kind='open', p=(rng.choice([_BASE, _BASE + '/x', ROOTS['plain'], '', '/' + _BASE]) + p).encode()))
+    # size-class stream: files of 1 byte ... 1 MiB + 7 around thresholds a maintainer might pick for compression/buffering,
+    # served compressed (min_compression_length 20) and raw (huge min_compression_length), directly and as whole requests
+    big = []
+    for n in BIG_SIZES:
+        big.append(mk(rng, 'plain', '/big_%d.bin' % n, mcl=20, via='direct', kind='static'))
+    for n in (65536, 131073):
+        big.append(mk(rng, 'plain', '/big_%d.bin' % n, mcl=10 ** 9, via='direct'))
+    big.append(mk(rng, 'trail', '/sub/../big_131073.bin?x=/../big_65536.bin', mcl=20, via='sim'))
+    big.append(mk(rng, 'plain', '/big_131072.bin', mcl=131072, via='sim'))          # len == min_compression_length: raw
+    big.append(mk(rng, 'plain', '/big_131072.bin', mcl=131071, via='sim'))          # one above: compressed
+    big.append(mk(rng, 'plain', '/../big_65536.bin', mcl=20, via='sim'))            # the large file just outside: 404
+    if not quick:
+        for n in BIG_SIZES:
+            big.append(mk(rng, 'dslash', '/./big_%d.bin' % n, mcl=20, via='sim'))
+            big.append(mk(rng, 'plain', '/big_%d.bin' % n, mcl=n, via='direct'))
+            big.append(mk(rng, 'plain', '/big_%d.bin' % n, mcl=n - 1, via='direct'))
+    for c in big:
+        c['size_class'] = True
+    for p in ('/one.txt', '/empty.txt', '/b20.txt', '/b21.js'):
+        for m in (0, 1, 19, 20, 21):
+            cases.append(mk(rng, 'plain', p, mcl=m, via='direct'))
     # exhaustive enumeration (thorough): all paths of <= 5 tokens over 7-token alphabets
     if not quick:
         for ai, alpha in enumerate(ALPHABETS):
@@ -282,6 +342,7 @@ def generate(rng, tier):
             if p.count('/') + p.count('.') + p.count('?') + p.count('%') < 6 and rng.random() < 0.6:
                 continue
             cases.append(dict(kind='static', root='plain', path=p.encode(), mcl=20, via='direct', exh=0))
+    cases.extend(big)
     return cases
 
 
@@ -391,14 +452,14 @@ def dedup(pairs):
 
 def static_parts(root, path, mcl, res):
     gl = C.coq_list('(%s, %s)' % (hx(a), C.coq_option(hx, b)) for a, b in dedup(res['guesslog']))
-    zl = C.coq_list('(%s, %s)' % (hx(a), hx(b)) for a, b in dedup(res['gzlog']))
-    return dict(dir=coq_dir(root), mcl='(%d)%%Z' % mcl, agent='AG', gl=gl, zl=zl,
+    zl = C.coq_list('(%s, %s)' % (compact(a), compact(b)) for a, b in dedup(res['gzlog']))
+    return dict(tree='T1' if b'big_' in path else 'T0', dir=coq_dir(root), mcl='(%d)%%Z' % mcl, agent='AG', gl=gl, zl=zl,
                 path=hx(path))
 
 
 def static_term(root, path, mcl, res):
     a = static_parts(root, path, mcl, res)
-    return 'CStatic T0 %s %s %s %s %s %s %s' % (a['dir'], a['mcl'], a['agent'], a['gl'], a['zl'], a['path'], coq_obs(res))
+    return 'CStatic %s %s %s %s %s %s %s %s' % (a['tree'], a['dir'], a['mcl'], a['agent'], a['gl'], a['zl'], a['path'], coq_obs(res))
 
 
 def real_inside(root, path):
@@ -425,15 +486,15 @@ def reply_terms(root, path, res):
     terms = []
     if b'\r\n\r\n' in reply:
         head, body = reply.split(b'\r\n\r\n', 1)
-        terms.append('CRead %s (Some (%s, %s))' % (coq_reply(reply), coq_names(head.split(b'\r\n')), hx(body)))
+        terms.append('CRead %s (Some (%s, %s))' % (coq_reply(reply), coq_names(head.split(b'\r\n')), compact(body)))
     else:
-        terms.append('CRead %s None' % hx(reply))
+        terms.append('CRead %s None' % compact(reply))
     if is200:
         ins, target = real_inside(root, path)
         if os.path.isfile(target):
             with open(target, 'rb') as f:
-                zl = C.coq_list('(%s, %s)' % (hx(a), hx(b)) for a, b in dedup(res['gzlog']))
-                terms.append('CClient %s %s %s' % (hx(reply), zl, hx(f.read())))
+                zl = C.coq_list('(%s, %s)' % (compact(a), compact(b)) for a, b in dedup(res['gzlog']))
+                terms.append('CClient %s %s %s' % (compact(reply), zl, compact(f.read())))
     return terms
 
 
@@ -617,8 +678,8 @@ def classify(case, out, failure):
 def model_expr(case):
     if case['kind'] == 'static':
         a = static_parts(ROOTS[case['root']], case['path'], case['mcl'], run_impl(case))
-        return ('try_static_or_404 %s %s %s (kopen (table_look T0)) (guess_of_log %s) (gz_of_log %s) %s'
-                % (a['dir'], a['mcl'], a['agent'], a['gl'], a['zl'], a['path']))
+        return ('try_static_or_404 %s %s %s (kopen (table_look %s)) (guess_of_log %s) (gz_of_log %s) %s'
+                % (a['dir'], a['mcl'], a['agent'], a['tree'], a['gl'], a['zl'], a['path']))
     if case['kind'] == 'norm':
         return 'normpath %s' % hx(case['p'])
     if case['kind'] == 'open':
